@@ -30,7 +30,7 @@ from vf.pipeline import run_case, write_files
 
 MOD = "c13"
 STRUCTURED = ["NUMPYDOC", "GOOGLE", "REST"]
-PARAM_NAMES = ["a", "b", "value", "other_arg"]
+PARAM_NAMES = ["a", "b", "value", "other_arg", "value_", "_b"]  # twins that differ only by an underscore (seeded change C13_r5)
 
 
 # ---- documentation model ---------------------------------------------------------------------------------------------
